@@ -82,7 +82,7 @@ func ForSpectrum2[T, A, B any](attr ...string) (
 	if len(attr) == 0 {
 		seq = hseq.New2[T, A, B]()
 	} else {
-		seq = hseq.New[T](attr[0:2]...)
+		seq = hseq.New[T](attr[0:2:len(attr)]...)
 	}
 
 	return hseq.FMap2(seq,
@@ -102,7 +102,7 @@ func ForSpectrum3[T, A, B, C any](attr ...string) (
 	if len(attr) == 0 {
 		seq = hseq.New3[T, A, B, C]()
 	} else {
-		seq = hseq.New[T](attr[0:3]...)
+		seq = hseq.New[T](attr[0:3:len(attr)]...)
 	}
 
 	return hseq.FMap3(seq,
@@ -124,7 +124,7 @@ func ForSpectrum4[T, A, B, C, D any](attr ...string) (
 	if len(attr) == 0 {
 		seq = hseq.New4[T, A, B, C, D]()
 	} else {
-		seq = hseq.New[T](attr[0:4]...)
+		seq = hseq.New[T](attr[0:4:len(attr)]...)
 	}
 
 	return hseq.FMap4(seq,
@@ -148,7 +148,7 @@ func ForSpectrum5[T, A, B, C, D, E any](attr ...string) (
 	if len(attr) == 0 {
 		seq = hseq.New5[T, A, B, C, D, E]()
 	} else {
-		seq = hseq.New[T](attr[0:5]...)
+		seq = hseq.New[T](attr[0:5:len(attr)]...)
 	}
 
 	return hseq.FMap5(seq,
@@ -174,7 +174,7 @@ func ForSpectrum6[T, A, B, C, D, E, F any](attr ...string) (
 	if len(attr) == 0 {
 		seq = hseq.New6[T, A, B, C, D, E, F]()
 	} else {
-		seq = hseq.New[T](attr[0:6]...)
+		seq = hseq.New[T](attr[0:6:len(attr)]...)
 	}
 
 	return hseq.FMap6(seq,
@@ -202,7 +202,7 @@ func ForSpectrum7[T, A, B, C, D, E, F, G any](attr ...string) (
 	if len(attr) == 0 {
 		seq = hseq.New7[T, A, B, C, D, E, F, G]()
 	} else {
-		seq = hseq.New[T](attr[0:7]...)
+		seq = hseq.New[T](attr[0:7:len(attr)]...)
 	}
 
 	return hseq.FMap7(seq,
@@ -232,7 +232,7 @@ func ForSpectrum8[T, A, B, C, D, E, F, G, H any](attr ...string) (
 	if len(attr) == 0 {
 		seq = hseq.New8[T, A, B, C, D, E, F, G, H]()
 	} else {
-		seq = hseq.New[T](attr[0:8]...)
+		seq = hseq.New[T](attr[0:8:len(attr)]...)
 	}
 
 	return hseq.FMap8(seq,
@@ -264,7 +264,7 @@ func ForSpectrum9[T, A, B, C, D, E, F, G, H, I any](attr ...string) (
 	if len(attr) == 0 {
 		seq = hseq.New9[T, A, B, C, D, E, F, G, H, I]()
 	} else {
-		seq = hseq.New[T](attr[0:9]...)
+		seq = hseq.New[T](attr[0:9:len(attr)]...)
 	}
 
 	return hseq.FMap9(seq,
